@@ -172,6 +172,9 @@ func genC01(t *rapid.T) c01Case {
 			cp := pick(t, "dcoll", domainColliders)
 			m.DPerm = append(m.DPerm, cp[rapid.IntRange(0, 1).Draw(t, "which")])
 		}
+		if chance(t, "important-rule", 6) && !inList("important", m.Extra) {
+			m.Extra = append(m.Extra, "important") // the flag changes nothing about which requests the rule matches
+		}
 		if chance(t, "zero-hash-domain", 12) {
 			// a $domain value whose hash is 0, the value the hash function returns for the empty string
 			m.DPerm = append(m.DPerm, pick(t, "zero-hash", zeroHashNames))
